@@ -905,13 +905,31 @@ static void read_line_marker(Token **rest, Token *tok) {
     error_tok(tok, "invalid line marker");
   start->file->line_delta = tok->val - start->line_no;
 
+  // The directive applies to the lines that follow it, not to tokens
+  // that were read earlier (e.g. the body of a macro defined above it).
+  LineMarker *m = calloc(1, sizeof(LineMarker));
+  m->next = start->file->markers;
+  m->line_no = start->line_no;
+  m->line_delta = start->file->line_delta;
+  m->display_name = start->file->display_name;
+  start->file->markers = m;
+
   tok = tok->next;
   if (tok->kind == TK_EOF)
     return;
 
   if (tok->kind != TK_STR)
     error_tok(tok, "filename expected");
-  start->file->display_name = tok->str;
+  start->file->display_name = m->display_name = tok->str;
+}
+
+// Returns the #line directive in force at a given token, i.e. the last
+// one above the token in its file, or NULL if there is none.
+static LineMarker *line_marker_at(Token *tok) {
+  LineMarker *m = tok->file->markers;
+  while (m && m->line_no >= tok->line_no)
+    m = m->next;
+  return m;
 }
 
 // Visit all tokens in `tok` while evaluating preprocessing
@@ -927,8 +945,9 @@ static Token *preprocess2(Token *tok) {
 
     // Pass through if it is not a "#".
     if (!is_hash(tok)) {
-      tok->line_delta = tok->file->line_delta;
-      tok->filename = tok->file->display_name;
+      LineMarker *m = line_marker_at(tok);
+      tok->line_delta = m ? m->line_delta : 0;
+      tok->filename = m ? m->display_name : tok->file->name;
       cur = cur->next = tok;
       tok = tok->next;
       continue;
@@ -1092,13 +1111,15 @@ static Macro *add_builtin(char *name, macro_handler_fn *fn) {
 static Token *file_macro(Token *tmpl) {
   while (tmpl->origin)
     tmpl = tmpl->origin;
-  return new_str_token(tmpl->file->display_name, tmpl);
+  LineMarker *m = line_marker_at(tmpl);
+  return new_str_token(m ? m->display_name : tmpl->file->name, tmpl);
 }
 
 static Token *line_macro(Token *tmpl) {
   while (tmpl->origin)
     tmpl = tmpl->origin;
-  int i = tmpl->line_no + tmpl->file->line_delta;
+  LineMarker *m = line_marker_at(tmpl);
+  int i = tmpl->line_no + (m ? m->line_delta : 0);
   return new_num_token(i, tmpl);
 }
 
